@@ -11,7 +11,8 @@ run used by the correspondence (`runConcrete`) only *computes* those choices fro
 counter and the two time-outs, and then calls `step`; hence every theorem that quantifies over all
 choice lists covers every concrete run.
 
-Program points (after the F11 repair: one reading of the state per loop iteration):
+Program points (after the F11 repair: one reading of the state per loop iteration; after the
+fault-reset repair: leaving FAULT first writes CW_DISABLE_VOLTAGE so that bit 7 rises):
 
     state.setter:  timeout = monotonic() + FINAL                       init
                    while True:
@@ -19,7 +20,9 @@ Program points (after the F11 repair: one reading of the state per loop iteratio
                        if from == target: break                        -> done
                        next = self._next_state(target, from)           -> refused (ValueError)
                        # _change_state(next, from)
-                       controlword = TRANSITIONTABLE[(from, next)]     -> illegal (ValueError) | aWrite, write
+                       cw = TRANSITIONTABLE[(from, next)]              -> illegal (ValueError)
+                       if from == 'FAULT': controlword = 0x0000        aWrite0, write0   (rising edge of bit 7 next)
+                       controlword = cw                                aWrite, write
                        timeout1 = monotonic() + SINGLE                 setS
                        while self.state != next:                       aWait, wait   (equal -> aLoop)
                            if monotonic() > timeout1: -> False         chkS
@@ -81,6 +84,9 @@ def uncommandableNames : List Name :=
    ['F', 'A', 'U', 'L', 'T', ' ', 'R', 'E', 'A', 'C', 'T', 'I', 'O', 'N', ' ', 'A', 'C', 'T', 'I', 'V', 'E'],
    ['F', 'A', 'U', 'L', 'T']]
 
+/-- the literal compared with `from_state` in `_change_state` -/
+def faultName : Name := ['F', 'A', 'U', 'L', 'T']
+
 /-! ## the library's universe of state values as small numbers
 
 `0 … 7` = the keys of `SW_MASK` in dict order, `8` = 'UNKNOWN' (any other str), `9` = `None`. -/
@@ -103,6 +109,10 @@ structure Tables where
   tt : List (List (Option Nat))
   /-- `target in ('NOT READY TO SWITCH ON', 'FAULT REACTION ACTIVE', 'FAULT')`, target = 0 … 7 -/
   uncmd : List Bool
+  /-- the `from_state` for which `_change_state` first lowers bit 7 (`from_state == 'FAULT'`) -/
+  fault : Nat
+  /-- … by writing this controlword (`State402.CW_DISABLE_VOLTAGE`) -/
+  preCw : Nat
 deriving Repr, DecidableEq
 
 def Tables.nextOf (T : Tables) (f : Nat) : Nat := T.next.getD f 9
@@ -114,11 +124,13 @@ def codeTables : Tables where
   next := (List.range 9).map fun f => optIdx (nextStateIndirect (idxName f))
   tt := (List.range 9).map fun f => (List.range 9).map fun t => ttLookup (idxName f) (idxName t)
   uncmd := (List.range 8).map fun t => uncommandableNames.contains (idxName t)
+  fault := min (nameIdx faultName) 8
+  preCw := CW_DISABLE_VOLTAGE
 
 /-! ## the setter as a small-step machine -/
 
 inductive Pc where
-  | init | aLoop | loop | aWrite | write | setS | aWait | wait | chkS | aPollW | pollW
+  | init | aLoop | loop | aWrite0 | write0 | aWrite | write | setS | aWait | wait | chkS | aPollW | pollW
   | chkF | aPollL | pollL | done | refused | illegal | timeout
 deriving DecidableEq, Repr, Inhabited
 
@@ -151,7 +163,7 @@ def Pc.terminal : Pc → Bool
 
 /-- the adversary's moments -/
 def Pc.isAdv : Pc → Bool
-  | .aLoop | .aWrite | .aWait | .aPollW | .aPollL => true
+  | .aLoop | .aWrite0 | .aWrite | .aWait | .aPollW | .aPollL => true
   | _ => false
 
 /-- the drive may perform its pending automatic transition now -/
@@ -183,13 +195,15 @@ def decide1 (T : Tables) (c : Cfg) (v : Nat) : Cfg :=
     let n := nextOf T v c.target
     match T.ttOf v n with
     | none => { c with pc := .illegal, frm := v, nxt := n }
-    | some _ => { c with pc := .aWrite, frm := v, nxt := n }
+    | some _ => { c with pc := if v = T.fault then .aWrite0 else .aWrite, frm := v, nxt := n }
 
 def step (T : Tables) (view : PState → Nat) (c : Cfg) (ch : Choice) : Cfg :=
   match c.pc with
   | .init => { c with pc := .aLoop }
   | .aLoop => advance c ch.fire .loop
   | .loop => decide1 T c (seen view c)
+  | .aWrite0 => advance c ch.fire .write0
+  | .write0 => { receive c T.preCw with pc := .aWrite }
   | .aWrite => advance c ch.fire .write
   | .write =>
       match cwOf T c with
@@ -216,6 +230,7 @@ def entered (T : Tables) (c : Cfg) (ch : Choice) : List PState :=
     (match cwOf T c with
      | some cw => commandStates c.st (cw.testBit 7 && !c.rst) cw
      | none => [])
+  else if c.pc = .write0 then commandStates c.st (T.preCw.testBit 7 && !c.rst) T.preCw
   else []
 
 def run (T : Tables) (view : PState → Nat) (c : Cfg) : List Choice → Cfg
@@ -270,7 +285,7 @@ structure Conc where
 /-- is the step taken at this point an access to the drive? -/
 def isAccess (c : Cfg) : Bool :=
   match c.pc with
-  | .aWrite | .aPollW | .aPollL => true
+  | .aWrite0 | .aWrite | .aPollW | .aPollL => true
   | .aLoop | .aWait => !c.pdo
   | _ => false
 
@@ -292,7 +307,8 @@ def concStep (T : Tables) (view : PState → Nat) (s : Sched) (k : Conc) : Conc 
         (if (autoNext c.auto12 c.st).isSome && fire then 0
          else if mandatory c.st then k.declined + 1 else 0)
       else k.declined,
-    cws := if c.pc = .write then (match cwOf T c with | some cw => cw :: k.cws | none => k.cws) else k.cws,
+    cws := if c.pc = .write then (match cwOf T c with | some cw => cw :: k.cws | none => k.cws)
+      else if c.pc = .write0 then T.preCw :: k.cws else k.cws,
     trace := ent.reverse ++ k.trace }
 
 def runConcrete (T : Tables) (view : PState → Nat) (s : Sched) : Nat → Conc → Conc
